@@ -428,9 +428,7 @@ class ExtraOps:
             if kind == "calc":
                 o = Calculation(tags[op["tag"]], build_expr(op["e"], tags))
             elif kind == "proj":
-                o = Projection(frozenset(tags[c] for c in op["cols"]))
-                if o.columns == tgt.columns:
-                    o = None
+                o = Projection(frozenset(tags[c] for c in op["cols"]))      # (an identity projection is a valid raw node)
             elif kind == "sel":
                 o = Selection(build_pred(op["p"], tags))
                 if o.predicate.as_trivial() is True:
